@@ -287,6 +287,9 @@ func init() {
 		Outside: []string{"error-location clause (file:line of parse/runtime errors)", "columns inside re-lexed interpolation fragments", "HTML mode, LSP", "windows > 2 bytes"},
 	})
 
+	c14b := func(fn string, nn int, tier string) RunDef {
+		return RunDef{Fn: fn, Setup: "Setup", Pkg: "verif/harness/c14b", Params: n(nn), Tier: tier, Reach: []string{"end"}}
+	}
 	reg(Check{
 		ID:  "C14",
 		Pkg: "verif/harness/c14",
@@ -302,7 +305,15 @@ func init() {
 			{Fn: "H_parse", Params: n(4), Tier: "quick", Reach: []string{"accepted", "rejected"}},
 			{Fn: "H_parse", Params: n(5), Tier: "thorough", Reach: []string{"accepted", "rejected"}},
 			{Fn: "H_parse", Params: n(6), Tier: "thorough", Reach: []string{"accepted", "rejected"}},
+			c14b("H_base64", 0, "quick"), c14b("H_base64", 1, "quick"), c14b("H_base64", 2, "quick"), c14b("H_base64", 3, "quick"), c14b("H_base64", 4, "thorough"),
+			c14b("H_hex", 0, "quick"), c14b("H_hex", 1, "quick"), c14b("H_hex", 2, "quick"), c14b("H_hex", 3, "quick"),
+			c14b("H_url", 0, "quick"), c14b("H_url", 1, "quick"), c14b("H_url", 2, "quick"), c14b("H_url", 3, "thorough"),
+			c14b("H_decode_total", 1, "quick"), c14b("H_decode_total", 2, "quick"), c14b("H_decode_total", 3, "quick"), c14b("H_decode_total", 4, "thorough"),
+			c14b("H_unserialize_prefixed", 1, "quick"), c14b("H_unserialize_prefixed", 2, "quick"), c14b("H_unserialize_prefixed", 3, "quick"), c14b("H_unserialize_prefixed", 4, "thorough"),
+			c14b("H_serialize_roundtrip", 0, "quick"), c14b("H_serialize_roundtrip", 1, "quick"), c14b("H_serialize_roundtrip", 2, "quick"), c14b("H_serialize_roundtrip", 3, "quick"),
 		},
+		Assumptions: []string{"differential oracle for protobuf: the reference library google.golang.org/protobuf/encoding/protowire executed symbolically in the same path", "text codecs run through the real builtin functions of std/php down into encoding/base64, net/url and strconv source"},
+		Outside:     []string{"JSON encode/decode and everything behind encoding/json (reflection)", "md5/hash (whole-stream digests)", "float formatting", "inputs longer than 4-6 bytes; depth-70 trees; 4 KiB inputs", "unserialize accepts-exactly-the-well-formed-inputs (only totality and round trips are claimed for serialize)"},
 		Rule: "one state = one feasible path of the real code over a fully symbolic input of the stated length; " +
 			"an assertion is discharged by an unsat answer for PC ∧ ¬assertion (all inputs on the path), " +
 			"distinct paths have pairwise disjoint path conditions",
